@@ -30,5 +30,14 @@ func TestSweep(t *testing.T) {
 			}
 		}
 	}
+	// buffers of 2.5-8 MiB, a few goroutines and cycles
+	for ti, tn := range []string{"float64", "uint64", "int32", "uint16", "int8"}[:env.Pick(2, 5)] {
+		c := &Case{T: tn, C: 1 + ti%2, K: (300000 << uint(ti)) / (1 + ti%2), L: 0, G: 4, M: 4, Procs: 8, Repeat: env.Pick(1, 3)}
+		for i := 0; i < c.G; i++ {
+			c.Yields = append(c.Yields, i%8)
+			c.ByValue = append(c.ByValue, false)
+		}
+		Oracle.One(t, env, rec, "sweep", c)
+	}
 	rec.Exhaustive("grid: 6 types x G in {2,4,16,64} x GOMAXPROCS in {1,2,16} x {shared pointer, by-value copies, GC during run}; schedules are sampled, not enumerated", false)
 }
